@@ -32,6 +32,7 @@ func main() {
 		Setup:           func(c *harness.Ctx) { cli = os.Getenv("VERIF_CLI") },
 		SpinIsViolation: true,
 		MinNonTrivial:   20,
+		RaceIsViolation: true,
 		CaseTimeout:     120 * time.Second,
 	})
 }
@@ -204,7 +205,15 @@ func run(c *harness.Ctx, i int) {
 	c.LogInfo()
 	dir := c.CaseDir()
 	file := filepath.Join(dir, "blob")
-	dsu.WriteFile(file, data)
+	if rng.Intn(4) == 0 {
+		// the data file is named through a symlink
+		real := filepath.Join(dir, "blob.real")
+		dsu.WriteFile(real, data)
+		os.Symlink(real, file)
+		mutation += "|via-symlink"
+	} else {
+		dsu.WriteFile(file, data)
+	}
 	var err error
 	pb := &dsu.CountPB{}
 	if useCLI {
